@@ -30,7 +30,7 @@ const graphKinds = "LDTSCM"
 
 func graphSource(kinds string, edges []int) string {
 	var sb strings.Builder
-	sb.WriteString("def build():\n")
+	sb.WriteString("def build(extra = False):\n")
 	n := len(kinds)
 	for i := 0; i < n; i++ {
 		switch kinds[i] {
@@ -78,6 +78,16 @@ func graphSource(kinds string, edges []int) string {
 				fmt.Fprintf(&sb, "    setmember(n%d, \"k%d\", n%d)\n", i, j, j)
 			}
 		}
+	}
+	// extra: the same graph with one more element in its root, for comparisons
+	// between values of different lengths
+	switch kinds[0] {
+	case 'L':
+		sb.WriteString("    if extra:\n        n0.append(0)\n")
+	case 'D':
+		sb.WriteString("    if extra:\n        n0[\"extra\"] = 0\n")
+	case 'T', 'S':
+		sb.WriteString("    if extra:\n        m0.append(0)\n")
 	}
 	sb.WriteString("    return n0\n")
 	return sb.String()
@@ -143,6 +153,11 @@ def op_call(r, q): return r()
 def op_add(r, q): return r + q
 def op_dir(r, q): return (dir(r), type(r), bool(r))
 def op_minmax(r, q): return max(r, q)
+def op_lt_other(r, q): return (r < q, q < r)
+def op_cmp_other(r, q): return (r <= q, r >= q, r == q, r != q)
+def op_sorted_other(r, q): return sorted([r, q, r, q])
+def op_minmax_other(r, q): return (min(r, q), max(q, r))
+def op_in_other(r, q): return (r in [q], q in (r, 1))
 `
 
 // Operations executed on the Go side.
@@ -291,7 +306,11 @@ func (w *wk) runGraphOp(ge *graphEnv, cs *Case, build starlark.Value) {
 		if err != nil {
 			fw.Fatal("graph build failed: %v\n%s", err, graphSource(cs.Kinds, cs.Edges))
 		}
-		q, err = starlark.Call(th, build, nil, nil)
+		var qargs starlark.Tuple
+		if strings.HasSuffix(cs.Op, "_other") {
+			qargs = starlark.Tuple{starlark.True} // q: the same graph with one more element in its root
+		}
+		q, err = starlark.Call(th, build, qargs, nil)
 		if err != nil {
 			fw.Fatal("graph build failed: %v\n%s", err, graphSource(cs.Kinds, cs.Edges))
 		}
